@@ -123,6 +123,9 @@ class PrefixMixin{V}:
     def map_variable(self, expr{sig}):
         _hook(self, "map_variable")
         prefix = {a0}
+        tag = {kw}
+        if tag is not None and not expr.name.endswith(str(tag)):
+            return set()
         if prefix is None or expr.name.startswith(str(prefix)):
             return {{expr}}
         return set()
@@ -504,9 +507,13 @@ def _gen_extras(r, fam, variant):
             args.append(["s", r.choice(["x", "y", ""])])
         elif fam == "walk":
             args.append(["s", r.choice(["nocall", "all"])])
-    if kw_ok and r.random() < 0.4 and fam != "csemix_dep":
+    if kw_ok and r.random() < (0.4 if fam != "csemix_dep" else 0.15):
+        # (the CSE mix-in's handler takes no keywords: with one, both the mix-in user and its
+        # cache-free counterpart raise at the first wrapper)
         if fam == "combine":
             kwargs.append(["w", ["i", r.choice([2, 3])]])
+        elif fam in ("collect", "dep", "csemix_dep", "depcomp"):
+            kwargs.append(["tag", r.choice([["s", "a"], ["s", "x"], ["s", "y"]])])
         else:
             kwargs.append(["tag", r.choice([["s", "p"], ["s", "q"], ["i", 7]])])
         if r.random() < 0.3:
@@ -715,7 +722,8 @@ def generate(seed, tier):
                 # (values without wrappers: the substitution family has a handler that feeds
                 # one recursive call into another, and a wrapper that keeps substituting
                 # itself back in would never end)
-                m.append([v, r.choice([["n", "Variable", [["s", r.choice(["x", "y", "q"])]]],
+                cfg["typed"] = r.random() < 0.4    # replace plain variables only, not subclasses
+            m.append([v, r.choice([["n", "Variable", [["s", r.choice(["x", "y", "q"])]]],
                                        ["n", "Sum", [["t", [["n", "Variable", [["s", "q"]]],
                                                             ["i", 1]]]]], ["i", 3]])])
             cfg["map"] = m
@@ -1083,9 +1091,11 @@ def execute(scenario, open_sigs):
             if not fresh:
                 st.sim = sim
 
-            def subst_func(e, mp=mp, sim=sim):
+            typed = bool(c.get("typed"))
+
+            def subst_func(e, mp=mp, sim=sim, typed=typed):
                 sim.hit("subst")
-                if isinstance(e, p.Variable):
+                if (type(e) is p.Variable) if typed else isinstance(e, p.Variable):
                     return mp.get(e.name)
                 return None
             return cls(subst_func)
@@ -1236,9 +1246,11 @@ def execute(scenario, open_sigs):
                     mp2 = {k: B.build(v, fresh=True) for k, v in knobs["reinit"]}
                     sim2 = st.sim
 
-                    def subst_func2(e_, mp=mp2, sim=sim2):
+                    typed2 = bool(ins["cfg"].get("typed"))
+
+                    def subst_func2(e_, mp=mp2, sim=sim2, typed=typed2):
                         sim.hit("subst")
-                        if isinstance(e_, p.Variable):
+                        if (type(e_) is p.Variable) if typed else isinstance(e_, p.Variable):
                             return mp.get(e_.name)
                         return None
                     st.obj.__init__(subst_func2)
